@@ -54,6 +54,11 @@ def lookups(ctx) -> None:
             pat, cod = core.src(outer[0].target), core.src(inner[0].target)
             good_ret = core.src(r.value) == cod and gs == [f'{pat}.match({cod}.encoding)']
     ctx.check(good_ret, 'C19.encoder', enc, 'returns the first encoder whose concrete encoding matches the pattern (pattern.match(codec.encoding))', enc.node, key='encoder:first-match')
+    if inner and outer:
+        pat, cod = core.src(outer[0].target), core.src(inner[0].target)
+        for r in rets:
+            g = cfg.cguards(r, enc.node)
+            ctx.check(core.src(r.value) == cod and g == [(f'{pat}.match({cod}.encoding)', True)], 'C19.encoder', enc, f'every encoder handed out was admitted by Encoding.match against the client pattern - kind *and* options (return `{core.src(r.value)}` under {g})', r, key='encoder:only-by-match')
     graph = cfg.CFG(enc.node)
     raises = [r for r in core.walk_local(enc.node) if isinstance(r, ast.Raise)]
     after = bool(raises) and all('Unsupported' in core.src(r) and not any(r is n for l in loops for n in ast.walk(l)) for r in raises)
@@ -68,6 +73,10 @@ def lookups(ctx) -> None:
             gs = [core.src(t) for t, pol in cfg.guards(r, dec.node, siblings=False) if pol]
             if core.src(r.value) == cod and gs == [f'{encv}.match({src})']:
                 good = True
+    if len(dloops) == 1 and isinstance(dloops[0].target, ast.Tuple) and len(dloops[0].target.elts) == 2:
+        for r in [r for r in core.walk_local(dec.node) if isinstance(r, ast.Return)]:
+            g = cfg.cguards(r, dec.node)
+            ctx.check(core.src(r.value) == cod and g == [(f'{encv}.match({src})', True)], 'C19.decoder', dec, f'every decoder handed out was admitted by Encoding.match against the declared content type (return `{core.src(r.value)}` under {g})', r, key='decoder:only-by-match')
     ctx.check(good, 'C19.decoder', dec, 'returns the decoder of the first table entry whose encoding matches the declared content type (entry.match(source))', dec.node, key='decoder:first-match')
     draises = [r for r in core.walk_local(dec.node) if isinstance(r, ast.Raise)]
     ctx.check(bool(draises) and all('Unsupported' in core.src(r) and not any(r is n for l in dloops for n in ast.walk(l)) for r in draises), 'C19.decoder', dec, 'Unsupported is raised only after the whole table was tried', dec.node, key='decoder:raise-after')
@@ -169,7 +178,48 @@ def tables(ctx) -> None:
     ctx.check('get_encoder(*encoding)' in text and 'Payload(encoder.dumps(outcome), encoder.encoding)' in text, 'C19.generic', rsp, 'the response uses the first supported encoder in the accepted order and declares that encoder\'s encoding', rsp.node, key='respond')
 
 
+REST = 'forml.provider.gateway.rest'
+
+
+def gateway(ctx) -> None:
+    """The REST gateway hands the application the client's preferences as stated: the request encoding comes from the
+    Content-Type header alone, the accepted encodings from the Accept header alone (header provenance by def-use over the
+    endpoint; mixing the two would rank the unweighted content type above every Accept entry with q < 1)."""
+    prog = ctx.prog
+    ep = next((f for f in prog.functions([REST]) if f.qual.startswith('Apply.') and f.name.endswith('__endpoint')), None)
+    if ep is None:
+        raise core.AnalysisError('anchor vanished: rest.Apply endpoint')
+    defs: dict[str, list[ast.AST]] = {}
+    for a in core.walk_local(ep.node):
+        if isinstance(a, ast.Assign) and isinstance(a.targets[0], ast.Name):
+            defs.setdefault(a.targets[0].id, []).append(a.value)
+
+    def headers(e: ast.AST, seen=()) -> set[str]:
+        out = set()
+        for n in ast.walk(e):
+            if isinstance(n, ast.Call) and isinstance(n.func, ast.Attribute) and n.func.attr in ('get', '__getitem__') and core.src(n.func.value).endswith('.headers') and n.args and isinstance(n.args[0], ast.Constant):
+                out.add(str(n.args[0].value).lower())
+            elif isinstance(n, ast.Subscript) and core.src(n.value).endswith('.headers') and isinstance(n.slice, ast.Constant):
+                out.add(str(n.slice.value).lower())
+            elif isinstance(n, ast.Name) and n.id in defs and n.id not in seen:
+                for d in defs[n.id]:
+                    out |= headers(d, seen + (n.id,))
+        return out
+
+    reqs = [c for c in core.calls_in(ep.node) if core.call_tail(c) == 'Request' and len(c.args) + len(c.keywords) >= 4]
+    ctx.floor('C19.gateway', len(reqs), 1)
+    for c in reqs:
+        enc_h, acc_h = headers(c.args[1]), headers(c.args[3])
+        ctx.check(enc_h == {'content-type'}, 'C19.gateway', ep, f'the request encoding derives from the Content-Type header only (found {sorted(enc_h)})', c, key='endpoint:content-type')
+        ctx.check(acc_h == {'accept'}, 'C19.gateway', ep, f'the accepted encodings derive from the Accept header only (found {sorted(acc_h)})', c, key='endpoint:accept')
+    parses = [c for c in core.calls_in(ep.node) if core.call_tail(c) == 'parse']
+    ctx.check(len(parses) == 2 and all(len(headers(c)) == 1 for c in parses), 'C19.gateway', ep, 'each header is parsed on its own (one Encoding.parse per header)', ep.node, key='endpoint:parse-per-header')
+    un = [h for h in ast.walk(ep.node) if isinstance(h, ast.ExceptHandler) and h.type is not None and 'Unsupported' in core.src(h.type)]
+    ctx.check(len(un) == 1 and any('415' in core.src(x) for x in un[0].body), 'C19.gateway', ep, 'the unsupported-encoding error reaches the client as 415', ep.node, key='endpoint:415')
+
+
 def run(ctx) -> None:
+    gateway(ctx)
     lookups(ctx)
     parse_rule(ctx)
     match_rule(ctx)
